@@ -3,7 +3,8 @@
    tables and semantic actions are regenerated from sql/parser.go on every run
    (Gen/ParserTables.v); see also C16. *)
 From Coq Require Import ZArith List String.
-From SQ Require Import Gen.ParserTables Model.SqlParse Model.Schema Proofs.SchemaP.
+From Coq Require Import Sorted.
+From SQ Require Import Gen.ParserTables Model.SqlParse Model.Schema Proofs.SchemaP Proofs.SchemaNumP.
 Import ListNotations.
 Open Scope string_scope.
 
@@ -36,6 +37,17 @@ Theorem C10_create_table_invariants : forall ct,
   distinct_ix (sc_indexes st).
 Proof. exact new_create_table_inv. Qed.
 Print Assumptions C10_create_table_invariants.
+
+(* the numbering of the automatic indexes, for EVERY statement value: the indexes created for the constraints of a
+   table are named sqlite_autoindex_<table>_<k> with numbers k >= 1 that strictly increase along the list - no number
+   is used twice and none goes backwards, whatever mix of merged, skipped and late (WITHOUT ROWID INTEGER PRIMARY KEY)
+   constraints the statement has - and the primary key index recorded for a rowid table is one of them (or none) *)
+Theorem C10_autoindex_numbering : forall ct,
+  let st := new_create_table ct in
+  (exists ks, map i_name (sc_indexes st) = map (autoindex_name (sc_table st)) ks /\ StronglySorted Z.lt ks /\ Forall (fun k => (1 <= k)%Z) ks) /\
+  (sc_wr st = false -> sc_pkname st = EmptyString \/ In (sc_pkname st) (map i_name (sc_indexes st))).
+Proof. exact new_create_table_numbering. Qed.
+Print Assumptions C10_autoindex_numbering.
 
 (* the rules as evaluated by the model on the statements that exposed the repaired defects *)
 Example C10_rowid_alias_rule :
